@@ -3,7 +3,7 @@
 From Coq Require Import String List NArith ZArith Bool.
 From MevVerif Require Import lib.Bytes lib.Abi lib.Keccak model.Rules model.ProviderSvc model.PreconfProvider
   check.Check_C01.
-From MevVerif Require model.EvmSend model.EvmTx.
+From MevVerif Require model.EvmSend model.EvmTx lib.Rlp model.EvmTxWire.
 Import ListNotations.
 Open Scope N_scope.
 
@@ -91,6 +91,8 @@ Record txstep := { s_src : txsrc;
                    s_raw_count : N;                 (* how many raw transactions it received during this step *)
                    s_type : N;                      (* its transaction type *)
                    s_sender : bytes;                (* its recovered sender *)
+                   s_signed : bytes;                (* the bytes whose keccak256 go-ethereum's signer signs for it:
+                                                       0x02 and the RLP list of its nine payload fields *)
                    s_est : option EvmTx.callmsg;    (* the argument of eth_estimateGas, if it was called *)
                    s_methods : list N }.            (* foreground calls seen, in order: 1 pending nonce, 2 estimate,
                                                        3 tip, 4 gas price, 5 raw transaction *)
@@ -131,6 +133,13 @@ Definition step_ok (t : txcase) (ctr : N) (s : txstep) : N * bool :=
    (s_ret s =? ret_of r) && opt_eqb dyntx_eqb (s_raw s) (EvmTx.tx_of r) &&
    (s_raw_count s =? match EvmTx.tx_of r with Some _ => 1 | None => 0 end) &&
    match s_raw s with Some _ => (s_type s =? 2) && bytes_eqb (s_sender s) (t_owner t) | None => true end &&
+   match s_raw s, EvmTx.tx_of r with
+   | Some _, Some mt => match EvmTxWire.signing_payload mt with
+                        | Some p => bytes_eqb (s_signed s) p
+                        | None => true          (* no encoding in the model: nothing to compare *)
+                        end
+   | _, _ => true
+   end &&
    opt_eqb callmsg_eqb (s_est s) (first_estimate calls) &&
    list_eqb N.eqb (s_methods s) (map call_code calls)).
 Fixpoint steps_ok (t : txcase) (ctr : N) (l : list txstep) : bool :=
